@@ -3,7 +3,7 @@
    correspondence check for upgma / neighbor.  Specs of the checkers are in
    TreeBuildProofs.v. *)
 From Coq Require Import QArith List Arith Bool.
-From LV Require Import Common.Cases Cluster.Nwk Cluster.Upgma Cluster.Neighbor.
+From LV Require Import Common.Cases Cluster.Nwk Cluster.Upgma Cluster.Neighbor Cluster.Fmt2.
 Import ListNotations.
 Local Open Scope nat_scope.
 
@@ -240,10 +240,12 @@ Definition tb_case_code (c : tb_case) : nat :=
   bit 0 ((negb (tb_cmp c) || list_eqb (row_eqb (tb_eps c)) (model_rows c) rows)
          && match built with
             | Some t => nt_eqb false 0 (nt_of_tree t) (tb_nwk c)
-                        && nt_eqb true (1 # 200) (nt_of_tree t) (tb_nwkd c)
+                        (* the printed lengths are exactly the '{:.2f}' rendering (fmt2) of the
+                           tree-matrix values: compared with tolerance 0 *)
+                        && nt_eqb true 0 (nt_of_tree (tree_fmt2 t)) (tb_nwkd c)
                         && nt_eqb false 0 (nt_of_tree t) (tb_t2n c)
-                        && nt_eqb true (1 # 200) (nt_of_tree t) (tb_t2nd c)
-                        && forallb (nt_eqb true ((1 # 200) + obj_slack) (nt_of_tree t)) (tb_objl c)
+                        && nt_eqb true 0 (nt_of_tree (tree_fmt2 t)) (tb_t2nd c)
+                        && forallb (nt_eqb true 0 (nt_of_tree (tree_fmt2 t))) (tb_objl c)
                         && forallb (nt_eqb false 0 (nt_of_tree t)) (tb_objt c)
             | None => false
             end)
